@@ -828,6 +828,21 @@ pub fn c10_into_seq(h: &History) -> Verdict {
             return bad("wrong-address", format!("remainder item {} does not point at source element {}", j, pos[j]));
         }
     }
+    // the remainder yields the undelivered *elements*: an element that the iterator machinery has already
+    // destroyed (or destroys again later) is not that element any more
+    if h.case.kind.consuming() && info.has_ids {
+        for (j, it) in items.iter().enumerate() {
+            let id = it.id as usize;
+            let mid = h.ledger_mid.drops.get(id).copied().unwrap_or(0);
+            let end = h.ledger_end.drops.get(id).copied().unwrap_or(1);
+            if mid != 0 || end != 1 {
+                return bad(
+                    "remainder-element-destroyed",
+                    format!("remainder item {} (element {}) was destroyed {} time(s) by the iterator machinery while the caller owned it ({} destructor calls in total)", j, id, mid, end),
+                );
+            }
+        }
+    }
     for w in pos.windows(2) {
         if w[1] != w[0] + 1 {
             return bad("remainder-order", format!("the remainder is not in source order: position {} follows {}", w[1], w[0]));
